@@ -49,6 +49,12 @@ add("C02", True, "E1-bfs", "model_checking",
     "Trusted: timers modelled by their arming state; budgets; the bounded-liveness reading (16 rounds, 3 quiet).",
     "5.2")
 
+add("C05", True, "E2-enum", "model_checking",
+    "exhaustive enumeration of (payload length, fragment size) pairs through the real Writer->Reader path, and of all fragment arrival permutations (+ one duplicate) of three samples of two writers on the real Reader",
+    "(a) every payload length 0..4F+5 for fragment sizes F in {4,5,8,64,1024} (thorough: also 7,12,16 and the full range for 1024), data and dispose-by-key: a real Writer with data_max_size_serialized=F emits DATA/DATAFRAGs, which are delivered to a real Reader; exactly one sample with exactly the written bytes must result and every DATAFRAG's fragmentSize/sampleSize/payload length must be consistent. (b) for shapes with 2-4 fragments per sample (full and short last fragment), two samples of one writer and one of another: every permutation of all fragments, alone and with each fragment duplicated at each position, is delivered to a real reliable Reader; after every delivery the cache holds exactly the samples whose every fragment has arrived, byte-identical, never twice; DataReader::take then returns each once, intact.",
+    "Trusted: fragment sizes < 4 excluded; no fragment GC (virtual clock does not advance); layer (b) builds DATAFRAGs with the Writer's own constructor.",
+    "5.5")
+
 NOT_YET = {}
 
 def main():
